@@ -21,10 +21,28 @@ import (
 	"verifharness/coqlit"
 )
 
+type c07Cond struct {
+	T string `json:"t"` // text printed by the condition block (out 'T')
+	X int    `json:"x"` // how the block ends: 0 nothing, 1 `false -s`, 3 `sh -c 'exit 3'`, -1 `and { out y }`
+}
+
 type c07Case struct {
-	Kind string    `json:"kind"` // expr | truth
-	Toks []exprTok `json:"toks,omitempty"`
-	Val  *exprTok  `json:"val,omitempty"`
+	Kind  string    `json:"kind"` // expr | truth | builtin
+	Toks  []exprTok `json:"toks,omitempty"`
+	Val   *exprTok  `json:"val,omitempty"`
+	B     string    `json:"b,omitempty"` // if | and | or | while | not
+	Neg   bool      `json:"neg,omitempty"`
+	Conds []c07Cond `json:"conds,omitempty"` // while: [A, B]
+	K     int       `json:"k,omitempty"`     // while: A for the first K evaluations, then B up to 4, then STOP
+}
+
+type c07BObs struct {
+	Ok    bool     `json:"ok"`
+	Flag  bool     `json:"flag"`
+	Exit  int      `json:"exit"`
+	Count int      `json:"count"`
+	Conds []string `json:"conds,omitempty"`
+	Raw   string   `json:"raw,omitempty"`
 }
 
 type c07TruthObs struct {
@@ -132,6 +150,39 @@ func (c07) Gen(seed int64, tier string, emit func(any)) {
 		t := t
 		emit(c07Case{Kind: "truth", Val: &t})
 	}
+	// statement-level builtins on the same words
+	bw := []string{"", "yes", "no", "OFF", " fail ", "x", "0", "null", "False", "disabled", "failed", "1", "nul", " No\t", "true", "00"}
+	for _, w := range bw {
+		for _, x := range []int{0, 1, 3, -1} {
+			for _, neg := range []bool{false, true} {
+				emit(c07Case{Kind: "builtin", B: "if", Neg: neg, Conds: []c07Cond{{w, x}}})
+			}
+		}
+		emit(c07Case{Kind: "builtin", B: "not", Conds: []c07Cond{{w, 0}}})
+	}
+	emit(c07Case{Kind: "builtin", B: "not", Conds: []c07Cond{{"", 1}}})
+	sw := []string{"yes", "no", "", "OFF", " fail ", "x"}
+	for _, b := range []string{"and", "or"} {
+		for _, neg := range []bool{false, true} {
+			for _, w1 := range sw {
+				emit(c07Case{Kind: "builtin", B: b, Neg: neg, Conds: []c07Cond{{w1, 0}}})
+				for _, w2 := range sw {
+					emit(c07Case{Kind: "builtin", B: b, Neg: neg, Conds: []c07Cond{{w1, 0}, {w2, 0}}})
+				}
+			}
+			emit(c07Case{Kind: "builtin", B: b, Neg: neg, Conds: []c07Cond{{"yes", 1}, {"yes", 0}}})
+			emit(c07Case{Kind: "builtin", B: b, Neg: neg, Conds: []c07Cond{{"yes", 0}, {"no", -1}, {"x", 3}}})
+		}
+	}
+	for _, neg := range []bool{false, true} {
+		for _, w1 := range sw {
+			for _, w2 := range sw {
+				for _, k := range []int{0, 2} {
+					emit(c07Case{Kind: "builtin", B: "while", Neg: neg, Conds: []c07Cond{{w1, 0}, {w2, 0}}, K: k})
+				}
+			}
+		}
+	}
 	// every operand pair with every logical operator, bare and parenthesised in a larger expression
 	ops := c07Operands()
 	for _, a := range ops {
@@ -148,6 +199,18 @@ func (c07) Gen(seed int64, tier string, emit func(any)) {
 	n := 700
 	if tier == "thorough" {
 		n = 8000
+	}
+	nb := 60
+	if tier == "thorough" {
+		nb = 600
+	}
+	for i := 0; i < nb; i++ {
+		k := 1 + r.Intn(3)
+		var cs []c07Cond
+		for j := 0; j < k; j++ {
+			cs = append(cs, c07Cond{bw[r.Intn(len(bw))], []int{0, 0, 0, 1, -1}[r.Intn(5)]})
+		}
+		emit(c07Case{Kind: "builtin", B: []string{"and", "or"}[r.Intn(2)], Neg: r.Intn(2) == 0, Conds: cs})
 	}
 	for i := 0; i < n; i++ {
 		ts := g.chain(r.Intn(4), 2)
@@ -229,10 +292,146 @@ func c07ValCoq(t exprTok) string {
 	return "VNull"
 }
 
+func c07CondBody(c c07Cond) string {
+	b := "out '" + c.T + "'"
+	switch c.X {
+	case 1:
+		b += "; false -s"
+	case 3:
+		b += "; sh -c 'exit 3'"
+	case -1:
+		b += "; and { out y }"
+	}
+	return b
+}
+
+// c07ObserveCond runs the condition block alone: what the builtin will read from it.
+func c07ObserveCond(body string) (string, int, string) {
+	r := RunMurex(body, 20*time.Second)
+	coq := coqlit.Record("cd_out", coqlit.Bytes(r.Stdout), "cd_exit", coqlit.Z(int64(r.ExitNum)))
+	return r.Stdout, r.ExitNum, coq
+}
+
+func c07Builtin(c c07Case) Result {
+	o := c07BObs{Ok: true}
+	name := c.B
+	if c.Neg {
+		name = "!" + name
+	}
+	var condCoq []string
+	addCond := func(body string) {
+		out, ex, cq := c07ObserveCond(body)
+		condCoq = append(condCoq, cq)
+		o.Conds = append(o.Conds, fmt.Sprintf("%q/%d", out, ex))
+	}
+	bk := "BIf"
+	switch c.B {
+	case "if":
+		if len(c.Conds) != 1 {
+			die("C07: if needs one condition")
+		}
+		body := c07CondBody(c.Conds[0])
+		addCond(body)
+		r := RunMurex(name+" { "+body+" } then { out T } else { out F }", 20*time.Second)
+		o.Raw = strings.TrimSpace(r.Stdout)
+		switch o.Raw {
+		case "T":
+			o.Flag = true
+		case "F":
+		default:
+			o.Ok = false
+		}
+		o.Count = 1
+	case "not":
+		bk = "BNot"
+		if len(c.Conds) != 1 || c.Neg {
+			die("C07: not needs one condition")
+		}
+		body := "out '" + c.Conds[0].T + "'"
+		if c.Conds[0].X == 1 {
+			body = "false -s"
+		}
+		addCond(body)
+		r := RunMurex(body+" -> !", 20*time.Second)
+		o.Raw = strings.TrimSpace(r.Stdout)
+		switch o.Raw {
+		case "true":
+			o.Flag = true
+		case "false":
+		default:
+			o.Ok = false
+		}
+		o.Count = 1
+	case "and", "or":
+		bk = "BAnd"
+		if c.B == "or" {
+			bk = "BOr"
+		}
+		p1, p2 := name, "n = 0; "+name
+		for _, cd := range c.Conds {
+			body := c07CondBody(cd)
+			addCond(body)
+			p1 += " { " + body + " }"
+			p2 += " { n = $n + 1; " + body + " }"
+		}
+		r1 := RunMurex(p1+"; exitnum", 20*time.Second)
+		e, err := strconv.Atoi(strings.TrimSpace(r1.Stdout))
+		if err != nil {
+			o.Ok = false
+		}
+		o.Exit = e
+		o.Flag = e < 0
+		r2 := RunMurex(p2+"; out $n", 20*time.Second)
+		n, err := strconv.Atoi(strings.TrimSpace(r2.Stdout))
+		if err != nil {
+			o.Ok = false
+		}
+		o.Count = n
+		o.Raw = strings.TrimSpace(r1.Stdout) + "|" + strings.TrimSpace(r2.Stdout)
+	case "while":
+		bk = "BWhile"
+		if len(c.Conds) != 2 {
+			die("C07: while needs two words")
+		}
+		stop := "false"
+		if c.Neg {
+			stop = "true"
+		}
+		a, b := "out '"+c.Conds[0].T+"'", "out '"+c.Conds[1].T+"'"
+		for i := 0; i < 4; i++ {
+			if i < c.K {
+				addCond(a)
+			} else {
+				addCond(b)
+			}
+		}
+		addCond("out '" + stop + "'")
+		prog := fmt.Sprintf("i = 0; %s { if { $i < %d } then { %s } else { if { $i < 4 } then { %s } else { out '%s' } } } { i = $i + 1 }; out $i",
+			name, c.K, a, b, stop)
+		r := RunMurex(prog, 30*time.Second)
+		n, err := strconv.Atoi(strings.TrimSpace(r.Stdout))
+		if err != nil || r.Timeout {
+			o.Ok = false
+		}
+		o.Count = n
+		o.Flag = true
+		o.Raw = strings.TrimSpace(r.Stdout)
+	default:
+		die("C07: unknown builtin %q", c.B)
+	}
+	bo := coqlit.Record("bo_ok", coqlit.Bool(o.Ok), "bo_flag", coqlit.Bool(o.Flag),
+		"bo_exit", coqlit.Z(int64(o.Exit)), "bo_count", coqlit.N(uint64(max(o.Count, 0))))
+	coq := "CaseBuiltin " + bk + " " + coqlit.Bool(c.Neg) + " " + coqlit.List(condCoq) + " " + bo
+	return Result{Obs: o, Coq: coq, Nontrivial: true, Class: "builtin/" + name}
+}
+
 func (c07) Run(raw json.RawMessage) Result {
 	var c c07Case
 	if err := json.Unmarshal(raw, &c); err != nil {
 		die("C07: bad case: %v", err)
+	}
+	if c.Kind == "builtin" {
+		return c07Builtin(c)
 	}
 	if c.Kind == "truth" {
 		if c.Val == nil {
@@ -248,7 +447,7 @@ func (c07) Run(raw json.RawMessage) Result {
 	if o.Kind == 1 {
 		class = "expr/error"
 	}
-	return Result{Obs: o, Coq: "CaseExpr " + exprToksCoq(c.Toks) + " " + o.coq,
+	return Result{Obs: o, Coq: "CaseExpr " + exprToksCoq(c.Toks) + " " + exprOracles(c.Toks) + " " + o.coq,
 		Nontrivial: nops >= 1 && o.Kind == 0, Class: class}
 }
 
